@@ -71,6 +71,7 @@ type topCtx struct {
 	notes      map[string]bool
 	guardCalls []guardSpec
 	pruneN     int
+	started    time.Time // generation budget: a function whose exploration takes too long is cut off (capHit)
 }
 
 func (tc *topCtx) addObl(o *Obligation) {
@@ -243,7 +244,7 @@ func (fr *frame) runInstrs(st *PState, b, pred *ssa.BasicBlock, visits map[*ssa.
 				return
 			}
 			fr.top.paths++
-			if fr.top.paths > fr.ex.Opts.MaxPaths {
+			if fr.top.paths > fr.ex.Opts.MaxPaths || fr.top.overBudget() {
 				fr.top.capHit = true
 				return
 			}
@@ -325,7 +326,7 @@ func (fr *frame) resume(st *PState, b *ssa.BasicBlock, from int, visits map[*ssa
 				return
 			}
 			fr.top.paths++
-			if fr.top.paths > fr.ex.Opts.MaxPaths {
+			if fr.top.paths > fr.ex.Opts.MaxPaths || fr.top.overBudget() {
 				fr.top.capHit = true
 				return
 			}
@@ -428,6 +429,21 @@ func (fr *frame) runDefers(st *PState, ds []*ssa.Defer, k func(*PState)) {
 		fr.runDefers(st2, ds[:len(ds)-1], k)
 	})
 }
+
+// overBudget reports whether the exploration of the current top-level function has used up its budget (wall time
+// or feasibility queries of `flag prune`). The function is then reported with CapHit: nothing about it is proved.
+func (tc *topCtx) overBudget() bool {
+	if tc.pruneN > GenPruneBudget {
+		return true
+	}
+	return !tc.started.IsZero() && time.Since(tc.started) > GenTimeBudget
+}
+
+// GenTimeBudget / GenPruneBudget bound the verification-condition generation of one function.
+var (
+	GenTimeBudget  = 90 * time.Second
+	GenPruneBudget = 1500
+)
 
 func (fr *frame) deferIsBenign(st *PState, d *ssa.Defer) bool {
 	c := d.Call
